@@ -2230,7 +2230,14 @@ pub fn host_filter_gate() -> Value {
 			(vec!["parity.io"], vec![], "http://parity.io:99999/", 400),
 			(vec!["parity.io:*"], vec![], "http://parity.io:99999/", 400),
 			(vec!["parity.io"], vec!["parity.io:99999"], "http://parity.io:99999/", 400),
-			(vec!["parity.io"], vec!["not a host"], "http://parity.io/", 200),
+			// one place names an authority that cannot be used: it is never ignored in favour of the other place
+			(vec!["parity.io"], vec!["not a host"], "http://parity.io/", 400),
+			(vec!["parity.io"], vec!["parity.io"], "http://evil.io:99999/", 400),
+			(vec!["parity.io"], vec!["parity.io"], "http://evil.io:/", 400),
+			(vec!["parity.io"], vec!["evil.io:99999"], "http://parity.io/", 400),
+			(vec!["parity.io"], vec!["evil.io/"], "http://parity.io/", 400),
+			(vec!["parity.io"], vec!["evil.io", "evil.io"], "http://parity.io/", 400),
+			(vec!["parity.io"], vec!["parity.io", "parity.io"], "http://parity.io/", 400),
 					// several Host headers: no single authority can be determined
 			(vec!["parity.io"], vec!["parity.io", "evil.io"], "/", 400),
 			(vec!["parity.io"], vec!["evil.io", "parity.io"], "/", 400),
